@@ -211,7 +211,7 @@ class JniFunction(JniBaseType):
 
     @cached_property
     def return_type_spec(self) -> str:
-        return self.decl.return_type_ref.type_def.jni.typename if self.decl.return_type_ref else "void"
+        return get_typename(self.decl.return_type_ref) if self.decl.return_type_ref else "void"
 
     @cached_property
     def return_type_translator(self) -> str: return translator(self.decl.return_type_ref)
@@ -282,7 +282,7 @@ class JniInterface(JniBaseType):
             if self.decl.asynchronous:
                 return NativeType.object
             else:
-                return self.decl.return_type_ref.type_def.jni.typename if self.decl.return_type_ref else "void"
+                return get_typename(self.decl.return_type_ref) if self.decl.return_type_ref else "void"
 
         @cached_property
         def return_type_translator(self) -> str: return translator(self.decl.return_type_ref)
